@@ -132,6 +132,11 @@ async fn finish<T: Send + 'static>(task: tokio::task::JoinHandle<T>, probe: &Syn
 }
 
 pub fn run(ctx: &mut Ctx) {
+    if ctx.mode.as_deref() == Some("net") {
+        // the full accepting stack against a hand-driven peer (shared with C11): here it judges
+        // that declined requests leave the store as it was
+        return super::c11net::run(ctx);
+    }
     let mode = ctx.mode.clone().unwrap_or_else(|| "script".into());
     match mode.as_str() {
         "faults" => run_faults(ctx),
